@@ -53,6 +53,10 @@ def gen_param_value(r: random.Random, sch: dict, loc: str):
     t = sch.get("type")
     if t == "array":
         n = r.randint(0, 3)
+        if (sch.get("items") or {}).get("format") == "date":
+            day = r.choice(["2024-03-04", "2024-03-05"])
+            vals = [day] * n if r.random() < 0.5 else [r.choice(["2024-03-04", "2024-03-05"]) for _ in range(n)]
+            return {"k": "date_list_shared", "v": vals}, vals
         vals = [r.choice(["a", "b c", "d,e", "é"]) for _ in range(n)]
         return {"k": "json", "v": vals}, vals
     if "enum" in sch:
@@ -298,7 +302,10 @@ def reply_for(r: random.Random, doc: dict, code: str, resp: dict) -> dict:
                 "expect": {"kind": "text", "text": s}, "media_type": mt}
     if mt == "text/event-stream":
         items = [gs.gen_instance(r, doc, sch) for _ in range(r.randint(0, 3))]
-        raw = "".join("data: " + json.dumps(i) + "\n\n" for i in items).encode()
+        raw = "".join("data: " + json.dumps(i) + "\n\n" for i in items)
+        if items and r.random() < 0.4:
+            raw = raw[:-2] + r.choice(["", "\n"])      # the final event is not terminated by a blank line
+        raw = raw.encode()
         chunks = [raw[i:i + 7] for i in range(0, len(raw), 7)] or [b""]
         return {"reply": {"status": status, "headers": {"content-type": mt}, "chunks_b64": [base64.b64encode(c).decode() for c in chunks]},
                 "expect": {"kind": "stream_json", "items": items}, "media_type": mt}
